@@ -170,3 +170,162 @@ Proof.
   - f_equal. apply U; [apply lsm_find_sound; exact F | exact H].
   - exfalso. apply (lsm_find_complete m x OK); [exists n; exact H | exact F].
 Qed.
+
+(* ---------- LineSymbolMap::new ---------- *)
+Fixpoint runs' (lines : list (option Z)) (i : Z) (cur : option (list Z)) : linemap :=
+  match lines with
+  | [] => []
+  | Some a :: r => runs' r (i + 1) (Some (match cur with Some c => snoc c a | None => [a] end))
+  | None :: r =>
+      match cur with
+      | Some bl => (i - len bl, bl) :: runs' r (i + 1) None
+      | None => runs' r (i + 1) None
+      end
+  end.
+Definition len_opt (cur : option (list Z)) : Z := match cur with Some c => len c | None => 0 end.
+
+Lemma bt_insert_last {V} (m : list (Z * V)) k v : (forall x, In x m -> fst x < k) -> bt_insert k v m = m ++ [(k, v)].
+Proof.
+  induction m as [|[k0 v0] m IH]; intros H; cbn [bt_insert app]; [reflexivity|].
+  pose proof (H (k0, v0) (or_introl eq_refl)) as H0. cbn in H0.
+  destruct (k <? k0) eqn:E1; [lia|]. destruct (k =? k0) eqn:E2; [lia|].
+  rewrite IH by (intros x Hx; apply H; right; exact Hx). reflexivity.
+Qed.
+
+Lemma lsm_runs_eq lines : forall i cur acc,
+  (forall x, In x acc -> fst x < i - len_opt cur) ->
+  lsm_runs lines i cur acc = acc ++ runs' lines i cur.
+Proof.
+  induction lines as [|[a|] lines IH]; intros i cur acc H; cbn [lsm_runs runs'].
+  - rewrite app_nil_r. reflexivity.
+  - apply IH. intros x Hx. specialize (H x Hx). destruct cur as [c|]; cbn [len_opt] in *.
+    + rewrite len_snoc. lia.
+    + unfold len. cbn. lia.
+  - destruct cur as [bl|]; cbn [len_opt] in *.
+    + rewrite bt_insert_last by exact H. rewrite IH.
+      * rewrite <- app_assoc. reflexivity.
+      * intros x Hx. cbn [len_opt]. pose proof (len_nonneg bl). apply in_app_or in Hx. destruct Hx as [Hx|[<-|[]]]; [specialize (H x Hx); lia | cbn; lia].
+    + apply IH. intros x Hx. specialize (H x Hx). cbn [len_opt]. lia.
+Qed.
+
+Lemma runs'_struct lines : forall i cur,
+  let m := runs' lines i cur in
+  ksorted m /\ windows_all apart_chk m = true /\ (forall x, In x m -> i - len_opt cur <= fst x).
+Proof.
+  induction lines as [|[a|] lines IH]; intros i cur; cbn [runs'].
+  - split; [constructor|]. split; [reflexivity|]. intros x [].
+  - specialize (IH (i + 1) (Some (match cur with Some c => snoc c a | None => [a] end))). cbn zeta in IH.
+    destruct IH as [I1 [I2 I3]]. split; [exact I1|]. split; [exact I2|].
+    intros x Hx. specialize (I3 x Hx). destruct cur as [c|]; cbn [len_opt] in *; [rewrite len_snoc in I3; lia | unfold len in I3; cbn in I3; lia].
+  - specialize (IH (i + 1) None). cbn zeta in IH. cbn [len_opt] in IH. destruct IH as [I1 [I2 I3]].
+    destruct cur as [bl|]; cbn [len_opt].
+    + pose proof (len_nonneg bl) as LB. split; [|split].
+      * constructor; [exact I1|]. apply Forall_forall. intros x Hx. specialize (I3 x Hx). unfold key_lt. cbn. lia.
+      * destruct (runs' lines (i + 1) None) as [|y m'] eqn:EM; [reflexivity|]. cbn [windows_all] in *. rewrite I2, andb_true_r.
+        unfold apart_chk. cbn [fst snd]. specialize (I3 y (or_introl eq_refl)). apply Z.leb_le. lia.
+      * intros x [<-|Hx]; [cbn; lia|]. specialize (I3 x Hx). lia.
+    + split; [exact I1|]. split; [exact I2|]. intros x Hx. specialize (I3 x Hx). lia.
+Qed.
+
+(* the lines that hold an address, in order *)
+Fixpoint enum_some (lines : list (option Z)) (i : Z) : list (Z * Z) :=
+  match lines with
+  | [] => []
+  | Some a :: r => (i, a) :: enum_some r (i + 1)
+  | None :: r => enum_some r (i + 1)
+  end.
+(* every run is followed by a line without address (a run that reaches the end of the table is
+   dropped by the Rust loop) *)
+Fixpoint closed (lines : list (option Z)) (open : bool) : Prop :=
+  match lines with
+  | [] => open = false
+  | Some _ :: r => closed r true
+  | None :: r => closed r false
+  end.
+
+Lemma enum_from_app {A} (l l' : list A) : forall k, enum_from k (l ++ l') = enum_from k l ++ enum_from (k + len l) l'.
+Proof.
+  induction l as [|x l IH]; intros k; cbn [enum_from app].
+  - unfold len. cbn. rewrite Z.add_0_r. reflexivity.
+  - rewrite IH. do 3 f_equal. unfold len. cbn [length]. lia.
+Qed.
+
+Lemma iter_runs' lines : forall i cur,
+  closed lines (match cur with Some _ => true | None => false end) ->
+  lsm_iter (runs' lines i cur) =
+  (match cur with Some c => enum_from (i - len c) c | None => [] end) ++ enum_some lines i.
+Proof.
+  induction lines as [|[a|] lines IH]; intros i cur C; cbn [runs' enum_some closed] in *.
+  - destruct cur; [discriminate|reflexivity].
+  - rewrite IH by exact C. destruct cur as [c|].
+    + unfold snoc. rewrite enum_from_app, len_app. cbn [enum_from]. rewrite <- app_assoc. cbn [app].
+      assert (L1 : len [a] = 1) by reflexivity. rewrite L1.
+      replace (i + 1 - (len c + 1)) with (i - len c) by lia.
+      replace (i - len c + len c) with i by lia. reflexivity.
+    + cbn [enum_from]. unfold len. cbn. replace (i + 1 - 1) with i by lia. reflexivity.
+  - destruct cur as [bl|].
+    + unfold lsm_iter. cbn [flat_map fst snd]. fold (lsm_iter (runs' lines (i + 1) None)). rewrite IH by exact C. reflexivity.
+    + rewrite IH by exact C. reflexivity.
+Qed.
+
+Lemma stable_sort_sorted (m : linemap) : ksorted m -> stable_sort m = m.
+Proof.
+  unfold stable_sort.
+  assert (G : forall acc, ksorted m -> (forall y x, In y acc -> In x m -> fst y < fst x) ->
+                fold_left (fun a x => stable_insert x a) m acc = acc ++ m).
+  { induction m as [|x m IH]; intros acc S H; cbn [fold_left]; [rewrite app_nil_r; reflexivity|].
+    apply ksorted_inv in S. destruct S as [S F]. rewrite Forall_forall in F.
+    assert (SI : stable_insert x acc = acc ++ [x]).
+    { clear IH. induction acc as [|y acc IHa]; [reflexivity|]. cbn [stable_insert app].
+      pose proof (H y x (or_introl eq_refl) (or_introl eq_refl)). destruct (fst x <? fst y) eqn:E; [lia|].
+      rewrite IHa by (intros y0 x0 Hy Hx; apply H; [right; exact Hy | exact Hx]). reflexivity. }
+    rewrite SI, IH; [rewrite <- app_assoc; reflexivity | exact S |].
+    intros y x0 Hy Hx. apply in_app_or in Hy. destruct Hy as [Hy|[<-|[]]]; [apply H; [exact Hy | right; exact Hx] | exact (F _ Hx)]. }
+  intros S. rewrite G; [reflexivity | exact S | intros y x []].
+Qed.
+Lemma lsm_sort_sorted (m : linemap) : ksorted m -> lsm_sort m = m.
+Proof.
+  unfold lsm_sort.
+  assert (G : forall acc, ksorted m -> (forall y x, In y acc -> In x m -> fst y < fst x) ->
+                fold_left (fun a kv => bt_insert (fst kv) (snd kv) a) m acc = acc ++ m).
+  { induction m as [|[k v] m IH]; intros acc S H; cbn [fold_left]; [rewrite app_nil_r; reflexivity|].
+    apply ksorted_inv in S. destruct S as [S F]. rewrite Forall_forall in F. cbn [fst snd].
+    rewrite bt_insert_last by (intros y Hy; apply (H y (k, v) Hy (or_introl eq_refl))).
+    rewrite IH; [rewrite <- app_assoc; reflexivity | exact S |].
+    intros y x0 Hy Hx. apply in_app_or in Hy. destruct Hy as [Hy|[<-|[]]]; [apply H; [exact Hy | right; exact Hx] | exact (F _ Hx)]. }
+  intros S. rewrite G; [reflexivity | exact S | intros y x []].
+Qed.
+
+Definition runs_sorted (m : linemap) : bool := forallb (fun b => windows_all Z.leb (snd b)) m.
+
+Theorem lsm_new_spec lines :
+  lsm_new lines = if runs_sorted (runs' lines 0 None) then Some (runs' lines 0 None) else None.
+Proof.
+  unfold lsm_new. rewrite (lsm_runs_eq lines 0 None []) by (intros x []). cbn [app].
+  destruct (runs'_struct lines 0 None) as [S [W _]]. unfold lsm_from_blocks.
+  rewrite (stable_sort_sorted _ S). fold apart_chk. rewrite W. fold (runs_sorted (runs' lines 0 None)).
+  rewrite (lsm_sort_sorted _ S). reflexivity.
+Qed.
+Theorem lsm_new_ok lines m : lsm_new lines = Some m -> closed lines false ->
+  lm_ok m /\ lsm_iter m = enum_some lines 0.
+Proof.
+  rewrite lsm_new_spec. destruct (runs_sorted (runs' lines 0 None)) eqn:R; [|discriminate]. intros [= <-] C.
+  destruct (runs'_struct lines 0 None) as [S [W _]]. split; [split; [exact S | split; [exact W | exact R]]|].
+  rewrite (iter_runs' lines 0 None C). reflexivity.
+Qed.
+
+Lemma enum_some_in lines : forall i n a, In (n, a) (enum_some lines i) <-> i <= n /\ nth_z lines (n - i) = Some (Some a).
+Proof.
+  induction lines as [|[b|] lines IH]; intros i n a; cbn [enum_some].
+  - split; [contradiction|]. intros [_ H]. apply nth_z_some in H. unfold len in H. cbn in H. lia.
+  - split.
+    + intros [H|H]; [injection H as <- <-; split; [lia|]; rewrite Z.sub_diag; reflexivity|].
+      apply IH in H. destruct H as [H1 H2]. split; [lia|]. rewrite nth_z_cons by lia. replace (n - i - 1) with (n - (i + 1)) by lia. exact H2.
+    + intros [H1 H2]. destruct (Z.eq_dec n i) as [->|Hne].
+      * rewrite Z.sub_diag in H2. cbn in H2. injection H2 as ->. left. reflexivity.
+      * right. apply IH. split; [lia|]. rewrite nth_z_cons in H2 by lia. replace (n - (i + 1)) with (n - i - 1) by lia. exact H2.
+  - rewrite IH. split.
+    + intros [H1 H2]. split; [lia|]. rewrite nth_z_cons by lia. replace (n - i - 1) with (n - (i + 1)) by lia. exact H2.
+    + intros [H1 H2]. destruct (Z.eq_dec n i) as [->|Hne]; [rewrite Z.sub_diag in H2; discriminate H2|].
+      split; [lia|]. rewrite nth_z_cons in H2 by lia. replace (n - (i + 1)) with (n - i - 1) by lia. exact H2.
+Qed.
